@@ -631,6 +631,11 @@ EXTERN uint32_t _dec_w16(wchar_t *src);
     }
 #endif
 
+/* the size in bytes of n elements of sz bytes each; a count whose product
+   does not fit is mapped to the largest value, which every limit rejects */
+#define SAFEC_MUL_SAT(n, sz)                                                   \
+    (unlikely((n) > (rsize_t)-1 / (sz)) ? (rsize_t)-1 : (rsize_t)(n) * (sz))
+
 /* is start of a surrogate pair? */
 #define _IS_W16(cp) ((cp) >= 0xd800 && (cp) < 0xdc00)
 
